@@ -21,6 +21,7 @@ type VTimer struct {
 	Expired bool
 	Fired   bool
 	Label   string
+	Created time.Time
 	// OnExpire, if set, runs synchronously (on the advancing thread) at expiry.
 	OnExpire func()
 	so       SyncObj
@@ -51,7 +52,7 @@ func (s *Sched) NewTimer(d time.Duration, period time.Duration, fn func(), ch ch
 	if d < 0 {
 		d = 0
 	}
-	t := &VTimer{Seq: s.tseq, When: s.now.Add(d), Period: period, Fn: fn, C: ch, Active: true, Label: label}
+	t := &VTimer{Seq: s.tseq, When: s.now.Add(d), Period: period, Fn: fn, C: ch, Active: true, Label: label, Created: s.now}
 	if cur := s.cur; cur != nil {
 		t.so.Release()
 	}
